@@ -1250,6 +1250,104 @@ def xftmle_targets():
     return out
 
 
+def basefit_targets():
+    """zepid/base.py, the .fit of RiskRatio, RiskDifference, NNT, OddsRatio, IncidenceRateRatio, IncidenceRateDifference: the
+    row masks whose counts (or person-time sums) become the cells, which cell is handed to which parameter of the calculator,
+    and the three missing-data counts."""
+    tree = ast.parse(open(BASE).read())
+    out = []
+
+    def mask(n, lvl):
+        """pandas boolean mask -> Coq boolean over r : frow"""
+        if isinstance(n, ast.BinOp) and isinstance(n.op, ast.BitAnd):
+            return '(%s && %s)' % (mask(n.left, lvl), mask(n.right, lvl))
+        u = ast.unparse(n)
+        if isinstance(n, ast.Compare) and len(n.ops) == 1 and isinstance(n.ops[0], ast.Eq):
+            l, r = ast.unparse(n.left), ast.unparse(n.comparators[0])
+            if l == 'df[exposure]' and r in lvl:
+                return 'e_is %s r' % lvl[r]
+            if l == 'df[outcome]' and r in ('1', '0'):
+                return 'y_is %s r' % ('true' if r == '1' else 'false')
+        table = {'df[exposure].isnull()': 'negb (e_obs r)', 'df[outcome].isnull()': 'negb (y_obs r)',
+                 'df[exposure].notnull()': 'e_obs r', 'df[outcome].notnull()': 'y_obs r'}
+        if u in table:
+            return table[u]
+        raise TranslateError('mask `%s` in zepid/base.py' % u[:70])
+
+    def cell(v, lvl):
+        """df.loc[mask].shape[0] -> count; df.loc[mask][time].sum() -> person-time"""
+        u = ast.unparse(v)
+        if isinstance(v, ast.Attribute) or isinstance(v, ast.Subscript) or isinstance(v, ast.Call):
+            if u.endswith('.shape[0]') and isinstance(v, ast.Subscript) and isinstance(v.value, ast.Attribute) \
+                    and isinstance(v.value.value, ast.Subscript) and ast.unparse(v.value.value.value) == 'df.loc':
+                return 'Qlen (filter (fun r => %s) rows)' % mask(v.value.value.slice, lvl)
+            if u.endswith('[time].sum()') and isinstance(v, ast.Call) and not v.args and isinstance(v.func.value, ast.Subscript) \
+                    and isinstance(v.func.value.value, ast.Subscript) and ast.unparse(v.func.value.value.value) == 'df.loc':
+                return 'Qsum tval (filter (fun r => %s) rows)' % mask(v.func.value.value.slice, lvl)
+        if isinstance(v, ast.BinOp) and isinstance(v.op, ast.Sub):
+            return '(%s - %s)' % (cell(v.left, lvl), cell(v.right, lvl))
+        if u in lvl.get('__cells__', {}):
+            return lvl['__cells__'][u]
+        raise TranslateError('cell expression `%s` in zepid/base.py' % u[:80])
+
+    for cls, tag, fn_name, keys in (('RiskRatio', 'rr', 'risk_ratio', ('a', 'b', 'c', 'd')),
+                                    ('RiskDifference', 'rd', 'risk_difference', ('a', 'b', 'c', 'd')),
+                                    ('NNT', 'nnt', 'number_needed_to_treat', ('a', 'b', 'c', 'd')),
+                                    ('OddsRatio', 'or', 'odds_ratio', ('a', 'b', 'c', 'd')),
+                                    ('IncidenceRateRatio', 'irr', 'incidence_rate_ratio', ('a', 't1', 'c', 't2')),
+                                    ('IncidenceRateDifference', 'ird', 'incidence_rate_difference', ('a', 't1', 'c', 't2'))):
+        fn = find_function(tree, cls + '.fit')
+        loops = [st for st in fn.body if isinstance(st, ast.For) and ast.unparse(st.iter) == 'vals' and ast.unparse(st.target) == 'i']
+        if len(loops) != 1:
+            raise TranslateError('%s.fit: loop over the exposure levels' % cls)
+        vals = [st for st in fn.body if isinstance(st, ast.Assign) and ast.unparse(st.targets[0]) == 'vals']
+        rem = [st for st in fn.body if isinstance(st, ast.Expr) and ast.unparse(st) == 'vals.remove(self.reference)']
+        if len(vals) != 1 or ast.unparse(vals[0].value) != 'set(df[exposure].dropna().unique())' or len(rem) != 1:
+            raise TranslateError('%s.fit: the levels are no longer the observed exposure values without the reference' % cls)
+        cells = {}
+        lv_ref = {'self.reference': 'ref'}
+        for st in fn.body:
+            if isinstance(st, ast.Assign) and ast.unparse(st.targets[0]) in ('self._c', 'self._d', 'self._c_time'):
+                cells[ast.unparse(st.targets[0])] = cell(st.value, lv_ref)
+        lv_i = {'i': 'lvl'}
+        for st in loops[0].body:
+            if isinstance(st, ast.Assign) and isinstance(st.targets[0], ast.Name) and st.targets[0].id in ('a', 'b', 'a_t'):
+                if st.targets[0].id in cells:
+                    raise TranslateError('%s.fit: %s assigned twice' % (cls, st.targets[0].id))
+                cells[st.targets[0].id] = cell(st.value, lv_i)
+        calls = [n for n in ast.walk(loops[0]) if isinstance(n, ast.Call) and ast.unparse(n.func) == fn_name]
+        if len(calls) != 1 or calls[0].args:
+            raise TranslateError('%s.fit: call of %s' % (cls, fn_name))
+        kw = {k.arg: ast.unparse(k.value) for k in calls[0].keywords}
+        if set(kw) != set(keys) | {'alpha'} or kw['alpha'] != 'self.alpha':
+            raise TranslateError('%s.fit: arguments of %s are %s' % (cls, fn_name, kw))
+        args = []
+        for k in keys:
+            if kw[k] not in cells:
+                raise TranslateError('%s.fit: %s=%s is not a tabulated cell' % (cls, k, kw[k]))
+            args.append(cells[kw[k]])
+        miss = {}
+        for st in fn.body:
+            if isinstance(st, ast.Assign) and ast.unparse(st.targets[0]) in ('self._missing_ed', 'self._missing_e', 'self._missing_d'):
+                miss[ast.unparse(st.targets[0])] = cell(st.value, {'__cells__': dict(miss)})
+        if set(miss) != {'self._missing_ed', 'self._missing_e', 'self._missing_d'}:
+            raise TranslateError('%s.fit: missing-data counts' % cls)
+        txt = ('(* %s.fit: the cells handed to %s(%s), for exposure level lvl against the reference ref *)\n'
+               'Definition base_%s_call_Q (rows : list frow) (ref lvl : Z) : Q * Q * Q * Q :=\n  (%s,\n   %s,\n   %s,\n   %s).\n'
+               '(* _missing_e, _missing_d, _missing_ed *)\n'
+               'Definition base_%s_missing_Q (rows : list frow) : list Q :=\n  [%s;\n   %s;\n   %s].'
+               % (cls, fn_name, ', '.join(keys), tag, args[0], args[1], args[2], args[3], tag,
+                  miss['self._missing_e'], miss['self._missing_d'], miss['self._missing_ed']))
+        if cls == 'RiskDifference':
+            ns = [st for st in fn.body if isinstance(st, ast.Assign) and ast.unparse(st.targets[0]) == 'n']
+            if len(ns) != 1 or ast.unparse(ns[0].value) != 'df.dropna(subset=[exposure, outcome]).shape[0]':
+                raise TranslateError('RiskDifference.fit: n')
+            txt += ('\n(* n of the no-assumption bounds: rows with exposure and outcome observed *)\n'
+                    'Definition base_rd_n_Q (rows : list frow) : Q :=\n  Qlen (filter (fun r => e_obs r && y_obs r) rows).')
+        out.append(RawTarget('base_' + tag, txt, ['rows', 'ref', 'lvl'], ['cells', 'missing']))
+    return out
+
+
 class RawTargetR(RawTarget):
     """ready-made Coq text over R"""
     def __init__(self, name, r_text):
@@ -1278,6 +1376,7 @@ GROUPS = {
     'siptw': siptw_targets,
     'slcoef': slcoef_targets,
     'xftmle': xftmle_targets,
+    'basefit': basefit_targets,
 }
 
 
@@ -1292,7 +1391,7 @@ def generate(groups=None):
         try:
             ts = fn()
             r = HEADER_R + '\n' + '\n\n'.join(t.coq() for t in ts) + '\n'
-            q = HEADER_Q + ('From Zepid Require Import Base.QSum Base.QAgg.\n' if g in ('pool', 'gfmarg', 'siptw', 'slcoef') else '') + ('From Zepid Require Import Base.QSum Base.QAgg Base.Rows Model.Estimators.\n' if g == 'xfvar' else '') + ('From Zepid Require Import Model.Gate.\n' if g == 'gate' else '') + ('From Zepid Require Import Base.QSum Base.QAgg Base.Rows Model.Estimators Model.Variance.\n' if g == 'xftmle' else '') + ('From Zepid Require Import Base.QSum Base.QAgg Model.Generalize.\n' if g == 'gener' else '') + '\n' + '\n\n'.join(t.coq_q() for t in ts) + '\n'
+            q = HEADER_Q + ('From Zepid Require Import Base.QSum Base.QAgg.\n' if g in ('pool', 'gfmarg', 'siptw', 'slcoef') else '') + ('From Zepid Require Import Base.QSum Base.QAgg Base.Rows Model.Estimators.\n' if g == 'xfvar' else '') + ('From Zepid Require Import Model.Gate.\n' if g == 'gate' else '') + ('From Coq Require Import ZArith.\nFrom Zepid Require Import Base.QSum Model.Frames.\n' if g == 'basefit' else '') + ('From Zepid Require Import Base.QSum Base.QAgg Base.Rows Model.Estimators Model.Variance.\n' if g == 'xftmle' else '') + ('From Zepid Require Import Base.QSum Base.QAgg Model.Generalize.\n' if g == 'gener' else '') + '\n' + '\n\n'.join(t.coq_q() for t in ts) + '\n'
             side[g] = [t.sidecar() for t in ts]
             err = None
         except (TranslateError, SyntaxError, OSError) as e:
